@@ -22,7 +22,7 @@ RunEnd(kind, s, i, cls) ==
 RECURSIVE QuoteEnd(_, _, _, _)
 QuoteEnd(kind, s, j, q) ==
   IF j > Len(s) THEN Len(s)
-  ELSE IF s[j] = q THEN (IF kind = "expression" /\ At(s, j + 1) = q THEN QuoteEnd(kind, s, j + 2, q) ELSE j)
+  ELSE IF s[j] = q THEN (IF kind # "generic" /\ At(s, j + 1) = q THEN QuoteEnd(kind, s, j + 2, q) ELSE j)
   ELSE QuoteEnd(kind, s, j + 1, q)
 \* end of a C comment whose body starts at index st: the first "*/" that lies entirely in the body, or the end of input
 RECURSIVE CommentEnd(_, _, _)
@@ -51,16 +51,16 @@ TokenAt(kind, s, i) ==
   IF WsChar(c) THEN <<TWhitespace, RunEnd(kind, s, i, "ws")>>
   ELSE IF WordStart(kind, c)
        THEN LET e == RunEnd(kind, s, i + 1, "word") IN
-            <<IF kind = "expression" /\ UpperSeq(SubSeq(s, i, e)) \in Keywords THEN TKeyword ELSE TWord, e>>
+            <<IF kind # "generic" /\ UpperSeq(SubSeq(s, i, e)) \in Keywords THEN TKeyword ELSE TWord, e>>
   ELSE IF Digit(c) \/ c = 46 \/ (c = 45 /\ kind = "generic")
        THEN LET n == NumberAt(kind, s, i) IN
             IF n[1] = 0 THEN <<TSymbol, SymEnd(kind, s, i)>>
-            ELSE IF kind = "expression" THEN LET e2 == ExpEnd(s, n[1]) IN <<IF e2 > n[1] THEN TFloat ELSE n[2], e2>>
+            ELSE IF kind # "generic" THEN LET e2 == ExpEnd(s, n[1]) IN <<IF e2 > n[1] THEN TFloat ELSE n[2], e2>>
             ELSE <<n[2], n[1]>>
   ELSE IF c \in {34, 39}
-       THEN <<IF kind = "expression" /\ c = 34 THEN TWord ELSE TQuoted, QuoteEnd(kind, s, i + 1, c)>>
+       THEN <<IF kind # "generic" /\ c = 34 THEN TWord ELSE TQuoted, QuoteEnd(kind, s, i + 1, c)>>
   ELSE IF kind = "generic" /\ c = 35 THEN <<TComment, RunEnd(kind, s, i + 1, "noteol")>>
-  ELSE IF kind = "expression" /\ c = 47 /\ At(s, i + 1) = 42 THEN <<TComment, CommentEnd(s, i + 2, i + 2)>>
+  ELSE IF kind # "generic" /\ c = 47 /\ At(s, i + 1) = 42 THEN <<TComment, CommentEnd(s, i + 2, i + 2)>>
   ELSE IF c <= (IF kind = "generic" THEN 255 ELSE 65534) THEN <<TSymbol, SymEnd(kind, s, i)>>
   ELSE <<TUnknown, i>>
 
